@@ -1,10 +1,10 @@
 \* X02 Timer thorough: clock readings {absent, epoch, 0.999999999s, 1s, 1.000000001s, 10^9s+5ns} chosen at every reading (forwards,
-\* equal, backwards, absent), Timer::start then every sequence of <= 3 of 9 queries (extent / elapsed / to_extent /
+\* equal, backwards, absent), Timer::start then every sequence of <= 4 of 9 queries (extent / elapsed / to_extent /
 \* start_timestamp on the timer, a by_ref() borrow and a copy). Exhaustive.
 SPECIFICATION Spec
 CONSTANTS
     Instants <- MC_Instants5
-    MaxOps = 3
+    MaxOps = 4
     Emit = TRUE
 VIEW view
 INVARIANTS TimerRefines TimerExtentIsRange ElapsedDefined
